@@ -35,7 +35,8 @@ class SimCrash(BaseException):
 
 _ERR = {name: getattr(errno, name) for name in (
     "ENOSPC", "EDQUOT", "EIO", "EACCES", "EROFS", "EMFILE", "ENOENT",
-    "ENOTDIR", "EISDIR", "EEXIST", "ENOTEMPTY", "EINVAL", "EBADF", "EINTR")}
+    "ENOTDIR", "EISDIR", "EEXIST", "ENOTEMPTY", "EINVAL", "EBADF", "EINTR",
+    "EOPNOTSUPP")}
 
 # errnos plausible per raw-call kind (used by fault enumeration)
 PLAUSIBLE = {
@@ -473,7 +474,17 @@ class SimRaw(io.RawIOBase):
         return True
 
     def fileno(self):
-        raise io.UnsupportedOperation("SimFS handles have no file descriptor")
+        # a fake descriptor (see the fd-level section below), handed out on
+        # demand: f.flush(); os.fsync(f.fileno()) is ordinary durable-write
+        # code
+        if self.closed:
+            raise ValueError("I/O operation on closed file")
+        fd = getattr(self, "_fakefd", None)
+        if fd is None:
+            fd = self._fakefd = _FD_NEXT[0]
+            _FD_NEXT[0] += 1
+            _FDS[fd] = self
+        return fd
 
     def isatty(self):
         return False
@@ -580,10 +591,12 @@ class SimRaw(io.RawIOBase):
             return
         if self._gone() or self.fs.dead:
             super().close()
+            _FDS.pop(getattr(self, "_fakefd", None), None)
             return
         try:
             # the descriptor is released whatever close() reports
             super().close()
+            _FDS.pop(getattr(self, "_fakefd", None), None)
             self.fs.open_handles -= 1
             act = self.fs._call("close", self.path)
             self.fs._after(act)
@@ -641,11 +654,207 @@ def _s(path):
     return p
 
 
+# ---- fd-level I/O on SimFS paths -----------------------------------------
+# os.open() of a SimFS path hands out a fake descriptor (far above anything
+# the kernel returns) that stands for one SimRaw; os.read/write/close/lseek/
+# fstat/ftruncate/fsync and open(fd)/os.fdopen(fd) on it are the same raw
+# calls as through a file object, so the same fault windows apply.
+_FD_BASE = 1 << 24
+_FDS = {}
+_FD_NEXT = [_FD_BASE]
+
+
+def _fd_mode(flags):
+    acc = flags & os.O_ACCMODE
+    if flags & getattr(os, "O_TMPFILE", 0) == getattr(os, "O_TMPFILE", -1):
+        raise oserror("EOPNOTSUPP", "O_TMPFILE")
+    if flags & os.O_DIRECTORY:
+        raise HarnessError("os.open(O_DIRECTORY) on a SimFS path is not "
+                           "modelled")
+    if acc == os.O_RDONLY:
+        return "rb"
+    plus = "+" if acc == os.O_RDWR else ""
+    if flags & os.O_CREAT and flags & os.O_EXCL:
+        return "x" + plus + "b"
+    if flags & os.O_APPEND:
+        return "a" + plus + "b" if flags & os.O_CREAT else None
+    if flags & os.O_CREAT and flags & os.O_TRUNC:
+        return "w" + plus + "b"
+    if flags & os.O_TRUNC:
+        return "trunc-existing" + plus
+    if flags & os.O_CREAT:
+        return "create-keep" + plus
+    return "r+b"            # write access to an existing file, no truncation
+
+
+def _sim_os_open(path, flags, mode=0o777, *, dir_fd=None):
+    if not _is_sim(path):
+        return _ORIG["os.open"](path, flags, mode, dir_fd=dir_fd)
+    fs = current()
+    m = _fd_mode(flags)
+    p = _s(path)
+    if m is None or m.startswith(("trunc-existing", "create-keep")):
+        # combinations without a one-letter equivalent: decide on existence
+        exists = True
+        try:
+            fs.stat(p)
+        except FileNotFoundError:
+            exists = False
+        if m is None:                       # O_APPEND without O_CREAT
+            if not exists:
+                raise oserror("ENOENT", path)
+            m = "ab"
+        elif m.startswith("trunc-existing"):
+            if not exists:
+                raise oserror("ENOENT", path)
+            m = "w" + ("+" if m.endswith("+") else "") + "b"
+        else:                               # O_CREAT, keep content
+            plus = "+" if m.endswith("+") else ""
+            m = ("r+b" if exists else "x" + plus + "b")
+    raw = fs.open(p, m, buffering=0)
+    fd = _FD_NEXT[0]
+    _FD_NEXT[0] += 1
+    _FDS[fd] = raw
+    return fd
+
+
+def _fd_raw(fd):
+    return _FDS.get(fd) if isinstance(fd, int) and fd >= _FD_BASE else None
+
+
+def _sim_os_close(fd):
+    raw = _fd_raw(fd)
+    if raw is None:
+        return _ORIG["os.close"](fd)
+    del _FDS[fd]
+    raw.close()
+
+
+def _sim_os_write(fd, data):
+    raw = _fd_raw(fd)
+    if raw is None:
+        return _ORIG["os.write"](fd, data)
+    return raw.write(data)
+
+
+def _sim_os_read(fd, n):
+    raw = _fd_raw(fd)
+    if raw is None:
+        return _ORIG["os.read"](fd, n)
+    buf = bytearray(n)
+    got = raw.readinto(buf)
+    return bytes(buf[:got or 0])
+
+
+def _sim_os_lseek(fd, pos, how):
+    raw = _fd_raw(fd)
+    if raw is None:
+        return _ORIG["os.lseek"](fd, pos, how)
+    return raw.seek(pos, how)
+
+
+def _sim_os_fstat(fd):
+    raw = _fd_raw(fd)
+    if raw is None:
+        return _ORIG["os.fstat"](fd)
+    return raw.fs.stat(raw.path)
+
+
+def _sim_os_ftruncate(fd, length):
+    raw = _fd_raw(fd)
+    if raw is None:
+        return _ORIG["os.ftruncate"](fd, length)
+    raw.truncate(length)
+
+
+class _FdRaw(io.RawIOBase):
+    """File object over a fake descriptor (open(fd) / os.fdopen(fd))."""
+
+    def __init__(self, fd, raw, closefd, mode):
+        super().__init__()
+        self._fd, self._raw, self._closefd = fd, raw, closefd
+        self.mode = mode
+        self.name = fd
+
+    def readable(self):
+        return self._raw.readable()
+
+    def writable(self):
+        return self._raw.writable()
+
+    def seekable(self):
+        return True
+
+    def fileno(self):
+        return self._fd
+
+    def readinto(self, b):
+        return self._raw.readinto(b)
+
+    def write(self, b):
+        return self._raw.write(b)
+
+    def seek(self, off, whence=0):
+        return self._raw.seek(off, whence)
+
+    def tell(self):
+        return self._raw.tell()
+
+    def truncate(self, size=None):
+        return self._raw.truncate(size)
+
+    def close(self):
+        if self.closed:
+            return
+        try:
+            if self._closefd and self._fd in _FDS:
+                _sim_os_close(self._fd)
+        finally:
+            super().close()
+
+
+def _open_fd(fd, raw, mode, buffering, encoding, errors, newline, closefd):
+    flags = set(mode)
+    binary = "b" in flags
+    plus = "+" in flags
+    main = [c for c in "rwxa" if c in flags][0]
+    fr = _FdRaw(fd, raw, closefd, mode)
+    if buffering == 0:
+        if not binary:
+            raise ValueError("can't have unbuffered text I/O")
+        return fr
+    bufsize = raw.fs.blksize if buffering in (-1, 1) else buffering
+    if plus:
+        buf = io.BufferedRandom(fr, bufsize)
+    elif main == "r":
+        buf = io.BufferedReader(fr, bufsize)
+    else:
+        buf = io.BufferedWriter(fr, bufsize)
+    if binary:
+        return buf
+    text = io.TextIOWrapper(buf, encoding or "utf-8", errors, newline,
+                            line_buffering=(buffering == 1))
+    text.mode = mode
+    return text
+
+
 def _sim_open(file, mode="r", buffering=-1, encoding=None, errors=None,
               newline=None, closefd=True, opener=None):
     if _is_sim(file):
+        if opener is not None:
+            fd = opener(_s(file), _mode_flags(mode))
+            raw = _fd_raw(fd)
+            if raw is None:
+                raise HarnessError("opener returned a real descriptor for a "
+                                   "SimFS path")
+            return _open_fd(fd, raw, mode, buffering, encoding, errors,
+                            newline, True)
         return current().open(_s(file), mode, buffering, encoding, errors,
                               newline)
+    raw = _fd_raw(file)
+    if raw is not None:
+        return _open_fd(file, raw, mode, buffering, encoding, errors,
+                        newline, closefd)
     return _ORIG["open"](file, mode, buffering, encoding, errors, newline,
                          closefd, opener)
 
@@ -714,9 +923,30 @@ def _unsupported(name):
 
 
 def _sim_fsync(fd):
-    if isinstance(fd, int):
+    if not isinstance(fd, int):
+        fd = fd.fileno()
+    raw = _fd_raw(fd)
+    if raw is None:
         return _ORIG["fsync"](fd)
+    # no volatile page cache is modelled (a crash keeps what write() put,
+    # torn writes are a fault of write itself): fsync is a raw call that can
+    # fail or be the crash point, nothing more
+    if raw._gone():
+        return None
+    act = raw.fs._call("fsync", raw.path)
+    raw.fs._after(act)
     return None
+
+
+def _mode_flags(mode):
+    """The flags io.open passes to an opener for a mode string."""
+    plus = "+" in mode
+    acc = os.O_RDWR if plus else (os.O_RDONLY if "r" in mode else os.O_WRONLY)
+    extra = {"r": 0, "w": os.O_CREAT | os.O_TRUNC,
+             "x": os.O_CREAT | os.O_EXCL,
+             "a": os.O_CREAT | os.O_APPEND}[[c for c in "rwxa"
+                                             if c in mode][0]]
+    return acc | extra | getattr(os, "O_CLOEXEC", 0)
 
 
 def install():
@@ -740,14 +970,26 @@ def install():
     os.replace = _sim_rename
     sc = _unsupported("scandir")
     os.scandir = sc
-    real_os_open = os.open
-
-    def _os_open(path, *a, **kw):
-        if _is_sim(path):
-            raise HarnessError("fd-level os.open on a SimFS path is not "
-                               "modelled")
-        return real_os_open(path, *a, **kw)
-    os.open = _os_open
+    for name in ("close", "write", "read", "lseek", "fstat", "ftruncate"):
+        _ORIG["os." + name] = getattr(os, name)
+    # tempfile binds os.unlink as a default argument at import time
+    try:
+        import tempfile
+        cl = tempfile._TemporaryFileCloser.cleanup
+        if cl.__defaults__ and len(cl.__defaults__) == 2:
+            cl.__defaults__ = (cl.__defaults__[0], lambda p: os.unlink(p))
+    except (ImportError, AttributeError):
+        pass
+    os.fsync = _sim_fsync
+    if hasattr(os, "fdatasync"):
+        os.fdatasync = _sim_fsync
+    os.open = _sim_os_open
+    os.close = _sim_os_close
+    os.write = _sim_os_write
+    os.read = _sim_os_read
+    os.lseek = _sim_os_lseek
+    os.fstat = _sim_os_fstat
+    os.ftruncate = _sim_os_ftruncate
 
 
 def real_open(*a, **kw):
